@@ -846,7 +846,7 @@ Lemma diamond_length n : length (diamond n) = S n.
 Proof. unfold diamond. rewrite app_length, map_length, seq_length. cbn. lia. Qed.
 
 Lemma diamond_nth_inner n i : (i < n)%nat ->
-  nth_error (diamond n) i = Some (RNode [RComputed (S i); RComputed (S i)]).
+  nth_error (diamond n) i = Some (RNode [RComputed (N.of_nat (S i)); RComputed (N.of_nat (S i))]).
 Proof.
   intro H. unfold diamond. rewrite nth_error_app1 by (rewrite map_length, seq_length; exact H).
   rewrite nth_error_map. rewrite (nth_error_nth' _ 0%nat) by (rewrite seq_length; exact H).
@@ -862,21 +862,21 @@ Qed.
 Lemma diamond_calls_pos k : 1 <= diamond_calls k.
 Proof. destruct k; cbn [diamond_calls]; lia. Qed.
 
-Lemma existsb_eqb_false x l : (forall y, In y l -> (y < x)%nat) -> existsb (Nat.eqb x) l = false.
+Lemma existsb_eqb_false x l : (forall y, In y l -> y < x) -> existsb (N.eqb x) l = false.
 Proof.
   intro H. induction l as [|y l IH]; [reflexivity|].
   cbn [existsb]. rewrite IH by (intros z Hz; apply H; right; exact Hz).
-  assert (y < x)%nat by (apply H; left; reflexivity).
-  replace (Nat.eqb x y) with false by (symmetry; apply Nat.eqb_neq; lia). reflexivity.
+  assert (y < x) by (apply H; left; reflexivity).
+  replace (N.eqb x y) with false by lia. reflexivity.
 Qed.
 
 (* the walk from e_{n-k}: exactly diamond_calls k calls, for every budget that allows them *)
 Lemma has_cycle_diamond n : forall k, (k <= n)%nat ->
   forall fuel visited b r,
     (2 * k + 1 <= fuel)%nat -> diamond_calls k <= b ->
-    (forall y, In y visited -> (y < n - k)%nat) ->
+    (forall y, In y visited -> y < N.of_nat (n - k)) ->
     nth_error (diamond n) (n - k) = Some r ->
-    has_cycle fuel (diamond n) (n - k) r visited b = (HNo, b - diamond_calls k).
+    has_cycle fuel (diamond n) (N.of_nat (n - k)) r visited b = (HNo, b - diamond_calls k).
 Proof.
   induction k as [|k IH]; intros Hk fuel visited b r Hf Hb Hv Hr.
   - rewrite Nat.sub_0_r in Hr. rewrite diamond_nth_last in Hr. injection Hr as <-.
@@ -891,12 +891,14 @@ Proof.
     replace (b =? 0) with false by lia.
     (* the two children are the same computed userset *)
     assert (Hchild : forall b', 1 + diamond_calls k <= b' ->
-              has_cycle f (diamond n) (n - S k) (RComputed (n - k)) ((n - S k)%nat :: visited) b'
+              has_cycle f (diamond n) (N.of_nat (n - S k)) (RComputed (N.of_nat (n - k)))
+                        (N.of_nat (n - S k) :: visited) b'
               = (HNo, b' - 1 - diamond_calls k)).
     { intros b' Hb'. destruct f as [|f']; [lia|]. cbn [has_cycle].
       replace (b' =? 0) with false by lia.
       rewrite existsb_eqb_false.
       2:{ intros y [<-|[<-|Hy]]; [lia|lia|]. specialize (Hv y Hy). lia. }
+      rewrite Nat2N.id.
       destruct (nth_error (diamond n) (n - k)) as [r'|] eqn:En.
       2:{ exfalso. apply nth_error_None in En. rewrite diamond_length in En. lia. }
       rewrite (IH ltac:(lia) f' _ (b' - 1) r'); [reflexivity | lia | lia | | reflexivity].
